@@ -193,6 +193,10 @@ func runC06(r *core.Run) {
 			core.Fail("proc: %v", err)
 		}
 		defer p.End()
+		// two declared datetime notations (the catalog has texts in them): shorter than 8 characters, and month name first
+		if rs := p.Exec("SET @@DATETIME_FORMAT TO '[\"%e.%c.%y\", \"%b %e %Y\"]';"); rs.Err != "" {
+			core.Fail("datetime format: %s", rs.Err)
+		}
 		for i := w * chunks; i < (w+1)*chunks && i < len(rows); i++ {
 			s, wh := checkValRow(p, rows[i])
 			results[i] = rowRes{s, wh}
